@@ -179,6 +179,12 @@ def run_engine(tier, seed, corpus_dir=None):
             "distribution": stats, "buckets_hit": len(stats), "problems": problems, "samples": sample,
             "side_stream_group_flags": side_info, "corpus_ops": ncorpus,
             "excluded_input_classes": {},
+            "group_commits_predicted": {k: stats.get(k, 0) for k in ("commit_group_created", "commit_group_none", "commit_group_nested_rounds", "commit_block")},
+            "candidate_findings": ["hwloc__find_groups_by_min_distance is not the transitive closure its comment promises: newfirstfound is the "
+                                   "first object found in a pass, not the smallest, so a member found later with a smaller index is never "
+                                   "rescanned (corpus/distances/group-path4-not-transitive.ops: path 0-2-1-3 of minimal cells yields the group "
+                                   "{0,1,2}); outside the property (the Groups are consistent with C01), the model follows the code "
+                                   "(C13_group_closure_not_transitive_witness)"],
             "rule": "random API histories (120 ops per synthetic topology, 6 topologies, random NVSwitch marking; pools of 4 add "
                     "handles and 8 returned structures); a case is one op applied to the current state; every returned or "
                     "transformed structure is compared in full (name, kind, nbobjs, objects as type:gp_index, values); "
